@@ -1543,6 +1543,9 @@ func c10GenRun(r *vh.Rng, big bool, edge int) string {
 	}
 	if edge >= 0 {
 		n = c10EdgeSizes[edge%len(c10EdgeSizes)]
+		if sh := (edge / len(c10EdgeSizes)) % c10EdgeShapes; n >= 1<<19 && sh != 0 && sh != 2 && !vh.Thorough() {
+			n = []int{0, 1, 2}[edge%3] // quick tier: the 1 MiB bodies only with a restart before the first / the next attempt
+		}
 		buf = []string{"m", "f"}[(edge/(len(c10EdgeSizes)*c10EdgeShapes)+edge/len(c10EdgeSizes)+edge)%2]
 	}
 	b := c10GenBody(kind, n, seed)
@@ -1687,6 +1690,14 @@ func TestVerifC10Run(t *testing.T) {
 	re := vh.NewRng(vh.Seed() + 2011)
 	for e := 0; e < nedge; e++ {
 		jobs <- c10GenRun(re, false, e)
+	}
+	// fixed cases (whatever the seed): a message with an EMPTY body / with a header without a single
+	// field, restarted before its first attempt resp. before its second one
+	ha, hb := vh.HexBytes([]byte("a@example.org")), vh.HexBytes([]byte("b@example.org"))
+	subj := "r:" + vh.HexBytes([]byte("Subject: x\r\n"))
+	for _, f := range [][3]string{{"R.aPo", "-", "m:0:0:1:2166136261"}, {"aPt.r.aPo", subj, "f:0:0:1:2166136261"}, {"aAt.r.r.aPt.r", "-", "m:0:0:1:2166136261"},
+		{"R.r.aAo", subj, "m:4:1:1:84696351"}, {"aPt.aPt.r.aPo", "-", "f:4:1:1:84696351"}} {
+		jobs <- fmt.Sprintf("C10 run %s %s %s S=-,%s,%s J=- from=1 to=2 orc=- f=00000 auth=0 late=0", f[0], f[1], f[2], ha, hb)
 	}
 	close(jobs)
 	wg.Wait()
